@@ -19,7 +19,7 @@ SEMIRINGS = ["Q", "Q", "Float", "Real", "Boolean", "MaxTimes", "Log"]
 
 
 def plan(tier, seed):
-    return common.plan_shards(tier, seed, n_quick=120, n_thorough=1200, budget_quick=30, budget_thorough=300)
+    return common.add_m9_shard(common.plan_shards(tier, seed, n_quick=120, n_thorough=1200, budget_quick=30, budget_thorough=300), tier)
 
 
 def gates(tier):
@@ -110,4 +110,6 @@ def run_case(case, ctx):
 
 
 def run(spec, ctx):
+    if spec.get("m9"):
+        return common.run_m9(spec, ctx)
     common.loop(spec, ctx, gen_case, run_case)
